@@ -238,6 +238,33 @@ ReadUpdate(b, from, to, opts) ==
                               wd |-> wd, attrs |-> attrs, nlri |-> nlri, inner |-> inner]
 
 (* OPEN body in [from, to): 10 fixed octets, optional parameters, capability TLVs in parameter 2 *)
+(* INNER length fields of a capability value (c = [o, n] the capability TLV, value in [c.o+2, c.o+c.n)):
+     FQDN (73, draft-walton-bgp-hostname-capability 2): host length, host name, domain length, domain name;
+     software version (75, draft-abraitis-bgp-version-capability 2): version length, version.
+   The other capabilities (multiprotocol, extended next hop, graceful restart, long-lived GR, ADD-PATH)
+   are fixed-size tuples: their only length is the TLV length itself.
+   CapInner gives the inner fields that lie inside the value, whether one of them declares octets
+   beyond the end of the value (over) and whether the value is tiled exactly (ok). *)
+CapInner(b, c) ==
+  LET code == B(b, c.o)
+      vf   == c.o + 2
+      vt   == c.o + c.n
+      none == [fields |-> <<>>, over |-> FALSE, ok |-> TRUE]
+  IN CASE code = 73 ->
+            IF vt - vf < 1 THEN [none EXCEPT !.ok = FALSE]
+            ELSE LET hl == B(b, vf)
+                     df == vf + 1 + hl                   \* offset of the domain-length octet
+                 IN IF df + 1 > vt THEN [fields |-> <<vf>>, over |-> TRUE, ok |-> FALSE]
+                    ELSE LET dl == B(b, df)
+                         IN [fields |-> <<vf, df>>, over |-> df + 1 + dl > vt, ok |-> df + 1 + dl = vt]
+       [] code = 75 ->
+            IF vt - vf < 1 THEN [none EXCEPT !.ok = FALSE]
+            ELSE [fields |-> <<vf>>, over |-> vf + 1 + B(b, vf) > vt, ok |-> vf + 1 + B(b, vf) = vt]
+       [] OTHER -> none
+CapsInner(b, w, lim) ==      \* over / ok of the capabilities of one parameter that lie inside it
+  [over |-> \E j \in 1..Len(w.els) : w.els[j].o + w.els[j].n <= lim /\ CapInner(b, w.els[j]).over,
+   ok   |-> \A j \in 1..Len(w.els) : w.els[j].o + w.els[j].n <= lim => CapInner(b, w.els[j]).ok]
+
 ReadOpen(b, from, to) ==
   LET none == [t |-> "open", ok |-> FALSE, over |-> FALSE, ol |-> 0, pFrom |-> from, pTo |-> from,
                params |-> NoWalk, caps |-> <<>>]
@@ -252,8 +279,10 @@ ReadOpen(b, from, to) ==
                                    IF p.o + p.n <= pTo /\ B(b, p.o) = 2
                                    THEN Walk("t1l1", 0, b, p.o + 2, p.o + p.n) ELSE NoWalk]
                   IN [t |-> "open",
-                      ok |-> /\ pTo = to /\ params.ok /\ \A i \in 1..Len(caps) : caps[i].ok,
-                      over |-> params.over \/ \E i \in 1..Len(caps) : caps[i].over,
+                      ok |-> /\ pTo = to /\ params.ok
+                             /\ \A i \in 1..Len(caps) : caps[i].ok /\ CapsInner(b, caps[i], pTo).ok,
+                      over |-> \/ params.over
+                               \/ \E i \in 1..Len(caps) : caps[i].over \/ CapsInner(b, caps[i], pTo).over,
                       ol |-> ol, pFrom |-> pFrom, pTo |-> pTo, params |-> params, caps |-> caps]
 
 NoBody == [t |-> "none", ok |-> TRUE, over |-> FALSE]
@@ -342,7 +371,8 @@ NlriSliceOver(afi, safi, b) ==
   ELSE LET n == ElemLen(k, 0, b, 0, Len(b)) IN n >= 0 /\ n > Len(b)
 
 CapSliceOver(b) ==
-  LET n == ElemLen("t1l1", 0, b, 0, Len(b)) IN n >= 0 /\ n > Len(b)
+  LET n == ElemLen("t1l1", 0, b, 0, Len(b)) IN
+  n >= 0 /\ (n > Len(b) \/ CapInner(b, [o |-> 0, n |-> n]).over)
 
 ----------------------------------------------------------------------------
 (* All length fields of a message, for the mutation space of C05.  A field is
@@ -403,6 +433,12 @@ OpenFields(b, r) ==
   IN (IF end - HDR >= 10 THEN <<FieldAt("optlen", b, HDR + 9, 1, <<>>)>> ELSE <<>>)
      \o WalkFields("paramlen", "t1l1", 0, b, u.params, nosub)
      \o SeqOfSeqs([i \in 1..Len(u.caps) |-> WalkFields("caplen", "t1l1", 0, b, u.caps[i], csub)])
+     \o SeqOfSeqs([i \in 1..Len(u.caps) |->
+           SeqOfSeqs([j \in 1..Len(u.caps[i].els) |->
+              LET c == u.caps[i].els[j] IN
+              IF c.o + c.n > end THEN <<>>
+              ELSE LET fs == CapInner(b, c).fields
+                   IN [k \in 1..Len(fs) |-> FieldAt("capinner", b, fs[k], 1, csub(c))]])])
 
 (* every length field of the message, header length first *)
 Fields(b, opts) ==
